@@ -144,6 +144,7 @@ def run(R):
               'sampled formulas with 2 (quick) / 3 (thorough) operators, 3-state structures in thorough, random <= 5 states / depth <= 3; '
               'non-trivial = temporal operator present and answer neither empty nor all states; every exclusion of a sample is certified by a concrete lasso')
     known_finding_probe(R)
+    run_print_stream(R, 'C02', 'LTL', 800 if R.thorough else 100)
     cs = cases(R)
     run_mc(R, 'LTL', cs)
     rng = R.rng
